@@ -91,4 +91,13 @@ def refRootMoveValue (G : Game P M) (p : P) (depth : Nat) (m : M) : Int :=
 def refRootValue (G : Game P M) (p : P) (depth : Nat) : Int :=
   refKids (fun c x y => refNegamax G 255 c (depth - 1) 1 x y) G p (legalMovesOf G p) (MINS - 1) (-INF) INF
 
+/-- the side to move is checkmated within `n` further moves of its own, whatever it plays (no draw rules: used on
+    positions without history and with a small half-move clock) -/
+def lostWithin (G : Game P M) : Nat → P → Bool
+  | 0, p => (legalMovesOf G p).isEmpty && G.inCheck p
+  | n + 1, p =>
+    let ms := legalMovesOf G p
+    if ms.isEmpty then G.inCheck p
+    else ms.all fun m => (legalMovesOf G (G.play p m)).any fun m' => lostWithin G n (G.play (G.play p m) m')
+
 end RCE.Search
